@@ -247,7 +247,7 @@ func solve(asserts []*Term, opts ScriptOpts, timeoutSec int) solveResult {
 // best on large near-propositional queries — and z3 4.8.12's default nlsat — best on conjunctive path queries),
 // plus a small-lattice integer query that can only contribute "sat" (a replayable counterexample).
 // First definitive answer wins; if both real queries give up, z3 5.1's default tactic is tried.
-func portfolio(realScript, intSmall string, timeoutSec int, noRetry bool, nlsatFirst bool) (solveResult, bool) {
+func portfolio(realScript, intSmall string, timeoutSec int, noRetry bool, nlsatFirst bool, extraSat ...string) (solveResult, bool) {
 	if nlsatFirst {
 		r := runSolver(realScript, timeoutSec/4+5, "z3")
 		if r.status == "sat" || r.status == "unsat" {
@@ -283,6 +283,11 @@ func portfolio(realScript, intSmall string, timeoutSec int, noRetry bool, nlsatF
 	}
 	if intSmall != "" {
 		launch(intSmall, "z3", true)
+	}
+	for _, es := range extraSat {
+		if es != "" {
+			launch(es, "z3", true) // further sat-only searches (fine dyadic lattice)
+		}
 	}
 	var last solveResult
 	last.status = "unknown"
